@@ -69,94 +69,120 @@ def trailingZeros (file : Array UInt8) (start : Nat) : Nat → Nat
   | 0 => 0
   | n + 1 => if (file.getD (start + n) 0).toNat = 0 then trailingZeros file start n + 1 else 0
 
+inductive PadRes where
+  | err (r : Ret)
+  /-- the window held only zeros: seek further back and continue counting -/
+  | again (st : FI)
+  /-- the Stream Footer ends at `st.target`, and the window holds it -/
+  | footer (st : FI)
+
+/-- SEQ_PADDING_SEEK, SEQ_PADDING_DECODE and the `reverse_seek` that may precede SEQ_FOOTER -/
+def padPhase (file : Array UInt8) (needSeek : Bool) (st : FI) : PadRes :=
+  match (if needSeek then reverseSeek st else .ok st) with
+  | .error r => .err r
+  | .ok st =>
+    let np := trailingZeros file st.tempStart st.tempSize
+    let st1 := { st with streamPadding := st.streamPadding + np, target := st.target - np }
+    if np = st.tempSize then .again st1
+    else if st1.streamPadding % 4 ≠ 0 then .err .dataError
+    else
+      let st2 := { st1 with tempSize := st.tempSize - np, tempPos := st.tempSize - np }
+      match (if st2.tempSize < STREAM_HEADER_SIZE then reverseSeek st2 else .ok st2) with
+      | .error r => .err r
+      | .ok st3 => .footer st3
+
+/-- SEQ_FOOTER: the Check ID, the Backward Size and the state positioned at the start of the Index field -/
+def footerPhase (file : Array UInt8) (st3 : FI) : Except Ret (Nat × Nat × FI) :=
+  let st4 := { st3 with target := st3.target - STREAM_HEADER_SIZE, tempSize := st3.tempSize - STREAM_HEADER_SIZE }
+  match footerDecode (bytesAt file (st4.tempStart + st4.tempSize) 12) with
+  | .error r => .error (hideFormatError r)
+  | .ok (footerCheck, bsz) =>
+    if st4.target < bsz + STREAM_HEADER_SIZE then .error .dataError
+    else
+      let st5 := { st4 with target := st4.target - bsz }
+      let st6 := if st5.tempSize ≥ bsz then { st5 with tempPos := st5.tempSize - bsz }
+                 else { st5 with tempPos := 0, tempSize := 0 }
+      .ok (footerCheck, bsz, st6)
+
+/-- SEQ_INDEX_INIT and SEQ_INDEX_DECODE: exactly Backward Size bytes are offered to the Index decoder -/
+def indexPhase (file : Array UInt8) (memlimit : Nat) (st6 : FI) (bsz : Nat) : Except Ret Impl.Index :=
+  let memused := match st6.combined with | none => 0 | some c => Impl.memused c
+  if memused > memlimit then .error .progError
+  else
+    let idxBytes := if st6.tempSize ≠ 0 then bytesAt file (st6.tempStart + st6.tempPos) bsz
+                    else bytesAt file st6.target bsz
+    let r := Impl.decode (memlimit - memused) idxBytes
+    match r.ret, r.index with
+    | .streamEnd, some this => if r.used ≠ bsz then .error .dataError else .ok this
+    | .ok, _ => .error .dataError
+    | .streamEnd, none => .error .progError
+    | r', _ => .error r'
+
+/-- the seek back over the Blocks and SEQ_HEADER_DECODE (skipped for the first Stream of the file: cached flags) -/
+def headerPhase (file : Array UInt8) (firstCheck : Nat) (st6 : FI) (bsz : Nat) (this : Impl.Index) : Except Ret (Nat × FI) :=
+  let seekAmount := this.totalSize + STREAM_HEADER_SIZE
+  if st6.target < seekAmount then .error .dataError
+  else
+    let st7 := { st6 with target := st6.target - seekAmount }
+    if st7.target = 0 then .ok (firstCheck, st7)
+    else
+      let st8 := { st7 with target := st7.target + STREAM_HEADER_SIZE }
+      let st9 : Except Ret FI :=
+        if st8.tempSize ≠ 0 ∧ st8.tempSize - bsz ≥ seekAmount then
+          let tp := st8.tempSize - bsz - seekAmount + STREAM_HEADER_SIZE
+          .ok { st8 with tempPos := tp, tempSize := tp }
+        else reverseSeek st8
+      match st9 with
+      | .error r => .error r
+      | .ok st9 =>
+        let st10 := { st9 with target := st9.target - STREAM_HEADER_SIZE,
+                               tempSize := st9.tempSize - STREAM_HEADER_SIZE,
+                               tempPos := st9.tempSize - STREAM_HEADER_SIZE }
+        match headerDecode (bytesAt file (st10.tempStart + st10.tempSize) 12) with
+        | .error r => .error (hideFormatError r)
+        | .ok c => .ok (c, st10)
+
+/-- SEQ_HEADER_COMPARE: set the flags and the padding of this Stream's index, put it in front of the combined one -/
+def combinePhase (st11 : FI) (this : Impl.Index) (bsz footerCheck headerCheck : Nat) : Except Ret Impl.Index :=
+  if headerCheck ≠ footerCheck then .error .dataError
+  else
+    match Impl.streamFlags this ⟨0, bsz, footerCheck⟩ with
+    | (.ok, this1) =>
+      match Impl.streamPadding this1 st11.streamPadding with
+      | (.ok, this2) =>
+        let cat : Ret × Impl.Index :=
+          match st11.combined with
+          | none => (.ok, this2)
+          | some c => Impl.cat this2 c
+        match cat with
+        | (.ok, comb) => .ok comb
+        | (r, _) => .error r
+      | _ => .error .progError
+    | _ => .error .progError
+
 /-- One Stream per iteration, from SEQ_PADDING_SEEK / SEQ_PADDING_DECODE to SEQ_HEADER_COMPARE. -/
 def streamLoop (file : Array UInt8) (memlimit : Nat) (firstCheck : Nat) : Nat → Bool → FI → Ret × Option Impl.Index
   | 0, _, _ => (.progError, none)
   | fuel + 1, needSeek, st =>
-    -- SEQ_PADDING_SEEK
-    match (if needSeek then reverseSeek st else .ok st) with
-    | .error r => (r, none)
-    | .ok st =>
-      -- SEQ_PADDING_DECODE
-      let np := trailingZeros file st.tempStart st.tempSize
-      let st1 := { st with streamPadding := st.streamPadding + np, target := st.target - np }
-      if np = st.tempSize then streamLoop file memlimit firstCheck fuel true st1
-      else if st1.streamPadding % 4 ≠ 0 then (.dataError, none)
-      else
-        let st2 := { st1 with tempSize := st.tempSize - np, tempPos := st.tempSize - np }
-        match (if st2.tempSize < STREAM_HEADER_SIZE then reverseSeek st2 else .ok st2) with
+    match padPhase file needSeek st with
+    | .err r => (r, none)
+    | .again st1 => streamLoop file memlimit firstCheck fuel true st1
+    | .footer st3 =>
+      match footerPhase file st3 with
+      | .error r => (r, none)
+      | .ok (footerCheck, bsz, st6) =>
+        match indexPhase file memlimit st6 bsz with
         | .error r => (r, none)
-        | .ok st3 =>
-          -- SEQ_FOOTER
-          let st4 := { st3 with target := st3.target - STREAM_HEADER_SIZE, tempSize := st3.tempSize - STREAM_HEADER_SIZE }
-          match footerDecode (bytesAt file (st4.tempStart + st4.tempSize) 12) with
-          | .error r => (hideFormatError r, none)
-          | .ok (footerCheck, bsz) =>
-            if st4.target < bsz + STREAM_HEADER_SIZE then (.dataError, none)
-            else
-              let st5 := { st4 with target := st4.target - bsz }
-              let st6 := if st5.tempSize ≥ bsz then { st5 with tempPos := st5.tempSize - bsz }
-                         else { st5 with tempPos := 0, tempSize := 0 }
-              -- SEQ_INDEX_INIT
-              let memused := match st6.combined with | none => 0 | some c => Impl.memused c
-              if memused > memlimit then (.progError, none)
-              else
-                -- SEQ_INDEX_DECODE: exactly Backward Size bytes are offered to the Index decoder
-                let idxBytes := if st6.tempSize ≠ 0 then bytesAt file (st6.tempStart + st6.tempPos) bsz
-                                else bytesAt file st6.target bsz
-                let r := Impl.decode (memlimit - memused) idxBytes
-                match r.ret, r.index with
-                | .streamEnd, some this =>
-                  if r.used ≠ bsz then (.dataError, none)
-                  else
-                    let seekAmount := this.totalSize + STREAM_HEADER_SIZE
-                    if st6.target < seekAmount then (.dataError, none)
-                    else
-                      let st7 := { st6 with target := st6.target - seekAmount }
-                      -- SEQ_HEADER_DECODE (skipped for the first Stream of the file: cached flags)
-                      let hdr : Except Ret (Nat × FI) :=
-                        if st7.target = 0 then .ok (firstCheck, st7)
-                        else
-                          let st8 := { st7 with target := st7.target + STREAM_HEADER_SIZE }
-                          let st9 : Except Ret FI :=
-                            if st8.tempSize ≠ 0 ∧ st8.tempSize - bsz ≥ seekAmount then
-                              let tp := st8.tempSize - bsz - seekAmount + STREAM_HEADER_SIZE
-                              .ok { st8 with tempPos := tp, tempSize := tp }
-                            else reverseSeek st8
-                          match st9 with
-                          | .error r => .error r
-                          | .ok st9 =>
-                            let st10 := { st9 with target := st9.target - STREAM_HEADER_SIZE,
-                                                   tempSize := st9.tempSize - STREAM_HEADER_SIZE,
-                                                   tempPos := st9.tempSize - STREAM_HEADER_SIZE }
-                            match headerDecode (bytesAt file (st10.tempStart + st10.tempSize) 12) with
-                            | .error r => .error (hideFormatError r)
-                            | .ok c => .ok (c, st10)
-                      match hdr with
-                      | .error r => (r, none)
-                      | .ok (headerCheck, st11) =>
-                        -- SEQ_HEADER_COMPARE
-                        if headerCheck ≠ footerCheck then (.dataError, none)
-                        else
-                          match Impl.streamFlags this ⟨0, bsz, footerCheck⟩ with
-                          | (.ok, this1) =>
-                            match Impl.streamPadding this1 st11.streamPadding with
-                            | (.ok, this2) =>
-                              let cat : Ret × Impl.Index :=
-                                match st11.combined with
-                                | none => (.ok, this2)
-                                | some c => Impl.cat this2 c
-                              match cat with
-                              | (.ok, comb) =>
-                                if st11.target = 0 then (.streamEnd, some comb)
-                                else streamLoop file memlimit firstCheck fuel (st11.tempSize = 0)
-                                       { st11 with streamPadding := 0, combined := some comb }
-                              | (r, _) => (r, none)
-                            | _ => (.progError, none)
-                          | _ => (.progError, none)
-                | .ok, _ => (.dataError, none)
-                | .streamEnd, none => (.progError, none)
-                | r', _ => (r', none)
+        | .ok this =>
+          match headerPhase file firstCheck st6 bsz this with
+          | .error r => (r, none)
+          | .ok (headerCheck, st11) =>
+            match combinePhase st11 this bsz footerCheck headerCheck with
+            | .error r => (r, none)
+            | .ok comb =>
+              if st11.target = 0 then (.streamEnd, some comb)
+              else streamLoop file memlimit firstCheck fuel (st11.tempSize = 0)
+                     { st11 with streamPadding := 0, combined := some comb }
 
 /-- `lzma_file_info_decoder` + `lzma_code` over a whole file (`file_size = file.size`); the result does not depend
     on how the application slices its reads or serves the seek requests. -/
